@@ -79,7 +79,7 @@ theorem C02_win_obligation (s s' : PSys) (i : Nat) (cfg : Cfg) (q : List Nat)
   · rename_i hg
     refine ⟨hg.1, hg.2.1, hg.2.2.1, hg.2.2.2.1, ?_, ?_⟩
     · simpa [List.contains_iff_mem] using hg.2.2.2.2.1
-    · have := hg.2.2.2.2.2
+    · have := hg.2.2.2.2.2.1
       simp only [List.all_eq_true, List.contains_iff_mem] at this
       exact this
   · cases h
